@@ -285,6 +285,11 @@ epochLoop:
 				if tx.Slot < int(until) {
 					break epochLoop
 				}
+				if uint64(tx.Slot) >= before {
+					// Newer than the requested window (`before` is exclusive): skip it.
+					// Entries are ordered newest first, so the ones inside the window follow.
+					continue
+				}
 				sig, err := tx.Signature()
 				if err != nil {
 					return nil, fmt.Errorf("error while getting signature: %w", err)
